@@ -147,6 +147,14 @@ def run(ck):
         for k in range(3 if quick else 12):
             swept.append({"scen": "throttle", "params": pf, "strat": ["random", 31 + k, 0.5], "gran": "line" if k % 2 else "sync",
                           "facts": {"block": False, "count_none": False, "dynamic": True, "directed": True}})
+    # blocking mode: the count callable changes (to another number, to "no limit") while a submitter is blocked
+    for v1 in (None, 2, 3):
+        pb = {"flavour": "manual", "count": {"script": [[0, 1], [200, v1]]}, "block": True,
+              "jobs": [{"S": 0, "D": 600, "K": None, "C": False}, {"S": 10, "D": 300, "K": None, "C": False},
+                       {"S": 50, "D": 300, "K": None, "C": False}, {"S": 250, "D": 300, "K": None, "C": False}], "horizon": 36000}
+        for k in range(2 if quick else 10):
+            swept.append({"scen": "throttle", "params": pb, "strat": ["random", 41 + k, 0.5], "gran": "line" if k % 2 else "sync",
+                          "facts": {"block": True, "count_none": False, "dynamic": True, "directed": True}})
     ck.run_and_validate(swept, TRACE, nontrivial=lambda t, r: True)
     ck.assumptions += [
         "in flight = handed to the delegate and neither finished nor cancelled there (never more than the executor's own count)",
